@@ -2,6 +2,8 @@
 
 #include <errno.h>
 
+#include "constmem.h"
+
 #include <algorithm>
 
 // ------------------------------------------------------------- helpers ----
@@ -196,7 +198,25 @@ struct GuardBuf {
         memset(base + GUARD, fill, bytes);
         memset(base + GUARD + bytes, GUARD_BYTE, GUARD);
     }
-    ~GuardBuf() { free(base); }
+    // like init(), but in the calling thread's const-input slab (constmem.h) when one is available; such a
+    // buffer is made read-only while the library runs and is released with the slab, not with free()
+    bool fromConst = false;
+    void initConst(size_t bytes, bool want) {
+        void *m = want ? constAlloc(bytes + 2 * GUARD) : nullptr;
+        if (!m) {
+            init(bytes);
+            return;
+        }
+        fromConst = true;
+        n = bytes;
+        base = (uint8_t *)m;
+        memset(base, GUARD_BYTE, GUARD);
+        memset(base + GUARD, 0, bytes);
+        memset(base + GUARD + bytes, GUARD_BYTE, GUARD);
+    }
+    ~GuardBuf() {
+        if (!fromConst) free(base);
+    }
     GuardBuf(const GuardBuf &) = delete;
     GuardBuf &operator=(const GuardBuf &) = delete;
     void *p() const { return base ? base + GUARD : nullptr; }
@@ -249,6 +269,8 @@ struct CallCtx {
     double d[4] = {0, 0, 0, 0};
     void *b0 = nullptr, *b1 = nullptr;  // caller-owned output buffers
     const void *in0 = nullptr;          // caller-owned input array
+    LatLng *pg = nullptr;               // two LatLng inputs (in the const slab when inputs are sealed)
+    CoordIJ *pij = nullptr;
     GeoPolygon *poly = nullptr;
     const char *s = nullptr;
     size_t sz = 0;
@@ -285,7 +307,8 @@ namespace {
 void doCall(void *vp) {
     CallCtx &c = *(CallCtx *)vp;
     const H3Api &A = *c.api;
-    LatLng g0 = {c.d[0], c.d[1]}, g1 = {c.d[2], c.d[3]};
+    LatLng gl[2] = {{c.d[0], c.d[1]}, {c.d[2], c.d[3]}};
+    const LatLng &g0 = c.pg ? c.pg[0] : gl[0], &g1 = c.pg ? c.pg[1] : gl[1];
     errno = c.opts ? c.opts->entryErrno : 0;
     switch (c.fn) {
         case FN_describeH3Error:
@@ -522,7 +545,8 @@ void doCall(void *vp) {
             c.rc = A.cellToLocalIj(c.c0, c.c1, c.u0, (CoordIJ *)c.b0);
             break;
         case FN_localIjToCell: {
-            CoordIJ ij = {c.i0, c.i1};
+            CoordIJ ijLocal = {c.i0, c.i1};
+            const CoordIJ &ij = c.pij ? *c.pij : ijLocal;
             c.rc = A.localIjToCell(c.c0, &ij, c.u0, (H3Index *)c.b0);
             break;
         }
@@ -556,10 +580,24 @@ Result execOp(const H3Api &api, const Op &op, const ExecOpts &opts) {
     c.fn = op.fn;
     c.out = &R.out;
     GuardBuf B0, B1, IN0;
+    // const inputs go into the calling thread's const slab when requested (read-only while the library runs)
+    const bool seal = opts.sealInputs && constMemAvailable();
     // polygon argument, built in caller-owned (guarded) memory
-    GeoPolygon gp;
+    GeoPolygon gpLocal;
+    GeoPolygon *gpp = seal ? (GeoPolygon *)constAlloc(sizeof(GeoPolygon)) : nullptr;
+    if (!gpp) gpp = &gpLocal;
+    GeoPolygon &gp = *gpp;
     std::vector<GuardBuf *> loopBufs;
-    GuardBuf holesBuf;
+    GuardBuf holesBuf, strBuf;
+    if (seal) {
+        c.pg = (LatLng *)constAlloc(2 * sizeof(LatLng));
+        if (c.pg) {
+            c.pg[0].lat = argD(op, 0);
+            c.pg[0].lng = argD(op, 1);
+            c.pg[1].lat = argD(op, 2);
+            c.pg[1].lng = argD(op, 3);
+        }
+    }
     auto buildPoly = [&]() {
         if (opts.shared && opts.shared->poly) {
             c.poly = opts.shared->poly;
@@ -567,7 +605,8 @@ Result execOp(const H3Api &api, const Op &op, const ExecOpts &opts) {
         }
         memset(&gp, 0, sizeof gp);
         for (size_t i = 0; i < op.loops.size(); i++) {
-            GuardBuf *b = new GuardBuf(op.loops[i].size() * sizeof(LatLng) + 8);
+            GuardBuf *b = new GuardBuf();
+            b->initConst(op.loops[i].size() * sizeof(LatLng) + 8, seal);
             if (!op.loops[i].empty())
                 memcpy(b->p(), op.loops[i].data(),
                        op.loops[i].size() * sizeof(LatLng));
@@ -579,7 +618,7 @@ Result execOp(const H3Api &api, const Op &op, const ExecOpts &opts) {
         }
         size_t nh = op.loops.size() > 1 ? op.loops.size() - 1 : 0;
         gp.numHoles = (int)nh;
-        holesBuf.init(nh * sizeof(GeoLoop) + 8);
+        holesBuf.initConst(nh * sizeof(GeoLoop) + 8, seal);
         GeoLoop *hs = holesBuf.as<GeoLoop>();
         for (size_t i = 0; i < nh; i++) {
             hs[i].numVerts = (int)op.loops[i + 1].size();
@@ -593,7 +632,8 @@ Result execOp(const H3Api &api, const Op &op, const ExecOpts &opts) {
             c.in0 = opts.shared->cells;
             return;
         }
-        IN0.init(op.cells.size() * sizeof(H3Index) + 8);
+        // gridDisksUnsafe takes its input set through a non-const pointer: never sealed
+        IN0.initConst(op.cells.size() * sizeof(H3Index) + 8, seal && op.fn != FN_gridDisksUnsafe);
         if (!op.cells.empty())
             memcpy(IN0.p(), op.cells.data(), op.cells.size() * sizeof(H3Index));
         c.in0 = IN0.p();
@@ -773,6 +813,11 @@ Result execOp(const H3Api &api, const Op &op, const ExecOpts &opts) {
             break;
         case FN_stringToH3:
             c.s = op.str.c_str();
+            if (seal) {
+                strBuf.initConst(op.str.size() + 1, true);
+                memcpy(strBuf.p(), op.str.c_str(), op.str.size() + 1);
+                c.s = strBuf.as<char>();
+            }
             B0.init(8);
             break;
         case FN_h3ToString: {
@@ -899,12 +944,34 @@ Result execOp(const H3Api &api, const Op &op, const ExecOpts &opts) {
     if (skip) {
         R.skipped = true;
         for (auto *b : loopBufs) delete b;
+        if (seal) constUnsealOp();
         return R;
     }
     c.b0 = B0.p();
     c.b1 = B1.p();
 
+    if (seal && op.fn == FN_localIjToCell) {
+        c.pij = (CoordIJ *)constAlloc(sizeof(CoordIJ));
+        if (c.pij) {
+            c.pij->i = c.i0;
+            c.pij->j = c.i1;
+        }
+    }
+    if (seal) constSealOp();
     Contained ct = runContained(doCall, &c, opts.wallLimitSec);
+    if (seal) {
+        for (auto &w : constTakeWrites()) {
+            R.constStores++;
+            if (w.changed) {
+                if (!R.constChanged) {
+                    R.constFirstOffset = w.offset;
+                    R.constFirstStep = w.step;
+                    R.constFirstShared = w.shared;
+                }
+                R.constChanged++;
+            }
+        }
+    }
     R.status = ct.status;
     R.sig = ct.sig;
     R.rc = c.rc;
@@ -991,5 +1058,6 @@ Result execOp(const H3Api &api, const Op &op, const ExecOpts &opts) {
         R.out.clear();
     }
     for (auto *b : loopBufs) delete b;
+    if (seal) constUnsealOp();
     return R;
 }
